@@ -30,7 +30,6 @@ import (
 
 	"verifharness/census"
 	"verifharness/payload"
-	"verifharness/refwire"
 	"verifharness/rig"
 	"verifharness/runner"
 	"verifharness/simnet"
@@ -690,121 +689,10 @@ func gen(tier string, seed uint64) []runner.Scenario {
 	return out
 }
 
-// validSession builds the frames of a plausible session in one direction.
-func validSession(r *payload.SplitMix, client bool) []refwire.Frame {
-	var fs []refwire.Frame
-	sid := uint64(1)
-	for rpc := 0; rpc < 1+r.Intn(3); rpc++ {
-		mid := uint64(1)
-		put := func(kind uint8, data []byte, ctl bool) {
-			nfr := 1 + r.Intn(3)
-			off := 0
-			for i := 0; i < nfr; i++ {
-				n := (len(data) - off) / (nfr - i)
-				if i == nfr-1 {
-					n = len(data) - off
-				}
-				fs = append(fs, refwire.Frame{Stream: sid, Message: mid, Kind: kind, Done: i == nfr-1, Control: ctl, Data: data[off : off+n]})
-				off += n
-			}
-			mid++
-		}
-		if client {
-			if r.Intn(2) == 0 {
-				md, _ := drpcmetadata.Encode(nil, map[string]string{"k": "v", "a": "b"})
-				put(7, md, false)
-			}
-			put(1, []byte("/svc/Method"), false)
-		}
-		for m := 0; m < r.Intn(4); m++ {
-			put(2, payload.Make(uint64(rpc), 0, 0, uint32(m), r.Intn(300)), false)
-		}
-		switch r.Intn(6) {
-		case 0:
-			put(6, nil, false)
-		case 1:
-			put(5, nil, false)
-		case 2:
-			put(3, append(make([]byte, 8), "boom"...), false)
-		case 3:
-			put(4, nil, true)
-		case 4:
-			put(uint8(8+r.Intn(56)), []byte("future"), true)
-		}
-		sid++
-	}
-	return fs
-}
-
-func mutate(r *payload.SplitMix, fs []refwire.Frame) []byte {
-	for k := 0; k < r.Intn(4); k++ {
-		if len(fs) == 0 {
-			break
-		}
-		i := r.Intn(len(fs))
-		switch r.Intn(10) {
-		case 0:
-			fs[i].Kind = uint8(r.Intn(64))
-		case 1:
-			fs[i].Control = !fs[i].Control
-		case 2:
-			fs[i].Stream += uint64(r.Intn(3)) - 1
-		case 3:
-			fs[i].Message += uint64(r.Intn(3)) - 1
-		case 4:
-			fs[i].Done = !fs[i].Done
-		case 5:
-			fs = append(fs[:i+1], fs[i:]...) // duplicate
-		case 6:
-			fs = append(fs[:i], fs[i+1:]...) // drop
-		case 7:
-			if len(fs[i].Data) > 0 {
-				d := append([]byte(nil), fs[i].Data...)
-				d[r.Intn(len(d))] ^= 0xff
-				fs[i].Data = d[:r.Intn(len(d)+1)]
-			}
-		case 8:
-			j := r.Intn(len(fs))
-			fs[i], fs[j] = fs[j], fs[i]
-		case 9:
-			fs[i].Stream = []uint64{0, 1 << 63, ^uint64(0), 1000}[r.Intn(4)]
-		}
-	}
-	var b []byte
-	for _, f := range fs {
-		b = refwire.Encode(b, f)
-	}
-	for k := 0; k < r.Intn(3); k++ {
-		if len(b) == 0 {
-			break
-		}
-		switch r.Intn(4) {
-		case 0:
-			b[r.Intn(len(b))] ^= byte(1 << uint(r.Intn(8)))
-		case 1:
-			b = b[:r.Intn(len(b)+1)]
-		case 2:
-			p := r.Intn(len(b))
-			ins := make([]byte, 1+r.Intn(12))
-			for j := range ins {
-				ins[j] = byte(r.Next()) | 0x80
-			}
-			b = append(b[:p:p], append(ins, b[p:]...)...)
-		}
-	}
-	if r.Intn(6) == 0 {
-		b = make([]byte, r.Intn(200))
-		for j := range b {
-			b[j] = byte(r.Next())
-		}
-	}
-	return b
-}
-
 func liveCase(a *acc, role string, seed uint64) {
 	a.n++
 	r := &payload.SplitMix{S: seed}
-	bytesIn := mutate(r, validSession(r, role == "server"))
+	bytesIn := wiregen.Mutate(r, wiregen.ValidSession(r, role == "server"))
 	os.WriteFile(lastInputFile, []byte(fmt.Sprintf("%s %x\n", role, bytesIn)), 0o644)
 	opts := drpcmanager.Options{SoftCancel: r.Intn(2) == 0}
 	chunk := simnet.Chunker(simnet.ChunkAll{})
